@@ -12,6 +12,7 @@ MPIEXEC = ["mpiexec", "--allow-run-as-root", "--oversubscribe", "--bind-to", "no
 TLA_CP = "/opt/veriftools/tla/tla2tools.jar:/opt/veriftools/tla/CommunityModules-deps.jar"
 
 _t0 = time.time()
+MAX_HANGS = 3      # hangs tolerated per launch group before the rest of the group is skipped
 MAX_REJECTS = 30   # stop isolating rejections after this many per validation pass
 TLC_PAR = 6        # trace validations running at once
 
@@ -162,6 +163,13 @@ def run_execs(bld, execs, np=1, env=None, shim=False, san=False, tag="b", per_st
         if not keep:
             shutil.rmtree(wd, ignore_errors=True)
         remaining = nxt
+        nh = sum(1 for r in out.values() if r["status"] == "hang")
+        if nh >= MAX_HANGS and remaining:
+            # every hang costs a full step timeout: after a few of them the rest of this launch group is skipped
+            log("%s: %d hangs; %d executions of this group not run" % (tag, nh, len(remaining)))
+            for ex in remaining:
+                out[ex["x"]] = {"status": "skipped", "steps": [], "log": "", "rc": -1}
+            break
         if attempt > len(execs) + 2:
             raise InfraError("run_execs does not converge")
     return out
@@ -312,6 +320,18 @@ def _san(o):
     """TLC's JSON module has no null: spell it as the string "null" """
     if o is None:
         return "null"
+    if isinstance(o, bool):
+        return o
+    if isinstance(o, int) and abs(o) >= 1 << 30:
+        return "i:%d" % o          # TLC integers are 32-bit
+    if isinstance(o, float):
+        if o != o:
+            return "nan"
+        if o in (float("inf"), float("-inf")):
+            return "inf" if o > 0 else "-inf"
+        if o == int(o) and abs(o) < 1 << 30:
+            return int(o)
+        return "f:" + repr(o)
     if isinstance(o, dict):
         return {k: _san(v) for k, v in o.items()}
     if isinstance(o, (list, tuple)):
@@ -460,6 +480,8 @@ def run_validate(bld, execs, module, cfg, np=1, shim=False, san=False, env=None,
     traces = []
     for ex in execs:
         r = res[ex["x"]]
+        if r["status"] == "skipped":
+            continue
         ev = to_events(r)
         if r["status"] in ("hang", "crash", "incomplete"):
             ev.append({"e": "ABNORMAL", "a": {"status": r["status"]}, "rc": r["status"], "out": {}, "obs": {}})
